@@ -1,2 +1,3 @@
 import MatidGen.Radii
 import MatidGen.AllGroups
+import MatidGen.Centring
